@@ -25,6 +25,11 @@ Parameter / regime coverage added by the audit of the signatures:
                              (own QR / SVD sweeps, no dense array); all four contract clauses, thresholds included.
 * per-core factors 2^ex (param `ex` of the truncate clauses): +-100 (totals 2^+-400, both stab flags) and +300 / -150
   with use_stab=True (totals up to 2^1200, outside the double range; reference from the unscaled cores).
+* uneven exponent PROFILES (param `ex` as a list of d integers, `_ex_profiles`): the scale of the tensor sits in single
+  cores - one core at / below the threshold 1e-100 of core_stab (2^-345, 2^-400) at EVERY position j >= 1, met after the
+  sweep has accumulated a power 2^3 / 2^-7 / 2^300 (or 2^600 from two cores) on the earlier cores, also followed by a
+  2^+400 core; d = 2, 3, 4 (thorough 5, 6), both stab flags, both modes, thresholds included.  Reference from the
+  unscaled cores, the result is scaled back by the total power only (`_unscale`), never by the input profile.
 * mode sizes 300 .. 1025 (thorough 2048) in the truncate clauses.
 * `C02.truncate.no_orth`     orth=False (never used before): e is the absolute per-unfolding budget; on left-orthonormal
                              input (own QR sweep) the error / rss / rank-cap contract of the sweep, otherwise structure.
@@ -43,6 +48,7 @@ BOUNDS = ('d in {2,3,4} (thorough 5), modes 1..4 (thorough 5), ranks 1..4 incl. 
           'families, scales 1e-6..1e6, e in {0.9..1e-10} plus (1 +- 1e-6) x every rank-change threshold in [1e-4, 0.9], '
           'caps {1e12, 1, 2, 3, 2.7}, is_eigh x use_stab; add_many up to 31 summands, trunc_freq in {1,2,3,4,5,6,7,15,50} '
           'and defaults; d = 20..70 (thorough 100) with own QR/SVD oracles; per-core factors 2^+-100, 2^300, 2^-150 (stab); '
+          'uneven per-core exponent profiles with one core <= 1e-100 (2^-345 / 2^-400) at every position after 2^3 / 2^-7 / 2^300; '
           'mode sizes up to 1025 (thorough 2048); orth=False on pre-orthogonalised and raw inputs')
 
 EPS = np.finfo(float).eps
@@ -134,15 +140,34 @@ class Case:
     pass
 
 
+def _unscale(Z, total):
+    """Cores of 2^-total * Z (exact, powers of two only) without assuming how the result spreads its scale over the
+    cores: every core is normalised to max-modulus in [0.5, 1), the exponents are summed and what remains of
+    (sum - total) is spread evenly.  A wrong total scale of Z shows up as a wrong / overflowing / vanishing dense tensor."""
+    out, rest = [], -int(total)
+    for G in Z:
+        _, x = math.frexp(float(np.abs(G).max()))
+        out.append(np.ldexp(G, -x))
+        rest += x
+    q, rem = divmod(rest, len(out))
+    return [np.ldexp(G, q + (1 if k < rem else 0)) for k, G in enumerate(out)]
+
+
 def run(n, r, seed, kind, scale, order, e, cap, stab, eigh, ex=0):
     """ex != 0: every core of the input carries the extra factor 2^ex (total 2^(d ex), possibly outside the double
     range - only meaningful with stab); the reference stays at the unscaled tensor and the result is scaled back
-    core by core (exact)."""
+    core by core (exact).  ex = list of d integers: core k carries 2^ex[k] (an uneven scale PROFILE, e.g. one core
+    below the threshold 1e-100 of core_stab); the result is scaled back by the total 2^-sum(ex) (see _unscale)."""
     c = Case()
     c.Y = make(n, r, seed, kind, scale, order)
     c.d = len(n)
     c.D = gen.dense(c.Y)
-    if ex:
+    prof = isinstance(ex, (list, tuple))
+    if prof:
+        if len(ex) != c.d:
+            raise ValueError('exponent profile must name every core')
+        c.Y = [np.ldexp(G, int(x)) for G, x in zip(c.Y, ex)]
+    elif ex:
         c.Y = [np.ldexp(G, ex) for G in c.Y]
     c.nrm = float(np.linalg.norm(c.D))
     if c.nrm == 0 or not np.isfinite(c.nrm):
@@ -162,7 +187,9 @@ def run(n, r, seed, kind, scale, order, e, cap, stab, eigh, ex=0):
         return None, FAIL('result not well-formed: ' + msg)
     if not gen.finite(c.Z):
         return None, FAIL('non-finite cores')
-    if ex:
+    if prof:
+        c.Z = _unscale(c.Z, sum(int(x) for x in ex))
+    elif ex:
         c.Z = [np.ldexp(G, -ex) for G in c.Z]
     c.rk = [1] + [G.shape[2] for G in c.Z]
     c.err = float(np.linalg.norm(gen.dense(c.Z) - c.D))
@@ -552,6 +579,32 @@ def _thresholds(n, r, seed, kind, scale):
     return out
 
 
+def _ex_profiles(d, big):
+    """Per-core exponent lists with ONE core (two in the 'tail' profile) below core_stab's threshold 1e-100 ~ 2^-332 while
+    the other cores are moderate / large: the tiny core at every position j >= 1 after the first core carried 2^3, 2^-7
+    or 2^300 (accumulated power != 0 when the tiny core is met), a tiny core followed by a huge one (the sweep returns to
+    the scaling branch), two large cores before the tiny one.  Every running core R_k Y_k of the orthogonalisation sweep
+    (with or without stabilisation) stays within 2^-410 .. 2^610, so nothing under- or overflows, squares included."""
+    out = []
+    for j in range(1, d):
+        for a in ((3, -7, 300) if (big or j == d - 1) else ((3, -7, 300)[j % 3],)):
+            p = [0] * d
+            p[0], p[j] = a, (-345 if a == -7 else -400)
+            out.append(p)
+    if d >= 3:
+        p = [0] * d
+        p[0], p[d - 2], p[d - 1] = 5, -400, 400
+        out.append(p)
+        p = [0] * d
+        p[0], p[1], p[d - 1] = 300, 300, -400
+        out.append(p)
+    if d >= 4:
+        p = [0] * d
+        p[0], p[1], p[d - 2], p[d - 1] = -30, 2, -350, -20
+        out.append(p)
+    return out
+
+
 def cases(tier, seed):
     big = tier == 'thorough'
     g = gen.rng('C02', seed)
@@ -611,6 +664,20 @@ def cases(tier, seed):
                     for e in [0.1, 1e-8] + ([0.5, 1e-3] if big else []) + [[k, q, sg] for k, q in th for sg in (1, -1)]:
                         yield from _emit(dict(base0, e=e, cap=1e12, stab=stab))
                     yield from _emit(dict(base0, e=1e-8, cap=2, stab=stab))
+    # uneven exponent PROFILES (ex = list): one core at / below core_stab's threshold 1e-100 (2^-345, 2^-400) at every
+    # position, after a positive / negative / large power has been accumulated on the earlier cores; both stab flags
+    # (every running core and its Gram matrix stay inside the double range, see _ex_profiles)
+    for n, r in (([3, 4], [1, 3, 1]), ([2, 3, 2], [1, 2, 3, 1]), ([2, 2, 3, 2], [1, 2, 4, 2, 1])) + \
+            ((([4, 5, 4], [1, 3, 3, 1]), ([2, 2, 2, 2, 2], [1, 2, 4, 4, 2, 1]), ([2, 3, 1, 2, 2, 2], [1, 2, 3, 3, 2, 2, 1])) if big else ()):
+        for pi, prof in enumerate(_ex_profiles(len(n), big)):
+            kind = ('gauss', 'lowrank', 'decay')[pi % 3]
+            base0 = dict(n=n, r=r, seed=41 + pi, kind=kind, scale=1.0, order='CFV'[pi % 3], ex=prof)
+            th = _thresholds(n, r, 41 + pi, kind, 1.0)[:: 2 if big else 3]
+            for stab in (True, False):
+                es = [0.1, 1e-8] + ([0.5, 1e-3] if big else []) + [[k, q, sg] for k, q in th for sg in (1, -1)]
+                for e in (es if (stab or big) else es[:3]):
+                    yield from _emit(dict(base0, e=e, cap=1e12, stab=stab))
+                yield from _emit(dict(base0, e=1e-8, cap=2, stab=stab))
     # large mode sizes
     for n, r in (([520, 3], [1, 3, 1]), ([2, 300, 2], [1, 2, 2, 1]), ([1, 1025, 2], [1, 1, 2, 1])) + \
             ((([3, 2048], [1, 3, 1]), ([30, 2, 31], [1, 4, 4, 1])) if big else ()):
